@@ -41,7 +41,7 @@ def classify(op, impl):
     kinds = []
     for f in t[7].split(";"):
         kinds.append(f[8:10] if len(f) >= 10 else "sh")
-    outs = "".join("P" if o == "panic" else "n" if o == "nil" else "k" for o in impl.split(";"))
+    outs = "".join("P" if o == "panic" else "R" if o == "refused" else "n" if o == "nil" else "k" for o in impl.split(";"))
     return (t[3], t[6], ",".join(kinds), outs)
 
 
